@@ -67,6 +67,7 @@ def step (st : St) (line : String) : St × List String :=
   match line.trimAscii.toString.splitOn " " with
   | ["case", id] => ({ id := id, docs := [] }, [])
   | ["end"] => ({}, [])
+  | ["fresh"] => (st, [])   -- the reference keeps no cache between compilations: a fresh compiler is the same function
   | "doc" :: nh :: toks =>
     match Hex.decode nh, parseTree toks with
     | some name, some (t, []) => ({ st with docs := st.docs ++ [(name, t)] }, [])
